@@ -17,7 +17,8 @@ Record names := { n_algo : string;
                   n_service_ok : bool;     (* IsDNS1035Label(GetSuggestionServiceName) *)
                   n_deploy_ok : bool;      (* IsDNS1123Subdomain(GetSuggestionDeploymentName) *)
                   n_suffix : string;       (* an utilrand.String(8) *)
-                  n_trial_ok : bool }.     (* IsDNS1123Subdomain and IsDNS1123Label(<experiment>-<suffix>) *)
+                  n_trial_ok : bool;       (* IsDNS1123Subdomain and IsDNS1123Label(<experiment>-<suffix>) *)
+                  n_algo_in_cfg : bool }.  (* the experiment's algorithm name is, letter for letter, an algorithmName of katib-config *)
 
 Record case := Case {
   c_env : env;
@@ -75,8 +76,11 @@ Definition mismatches := failing agrees.
 (* ------------------------------------------------------------------ the property monitor *)
 (* "Validation of a defaulted Experiment never crashes; an admitted Experiment has consistent positive budget fields, every
     dereferenced object present, legal derived names (for a legal algorithm name), and its trials can be built." *)
+(* An algorithm name that is no legal label makes the derived Service/Deployment names illegal; that is the operator's doing
+   only when katib-config itself spells the algorithm so.  A name that merely resembles a configured one (other case,
+   say) and is admitted is the webhook's fault. *)
 Definition names_ok (n : names) : bool :=
-  if n_algo_ok n then n_service_ok n && n_deploy_ok n && n_trial_ok n else true.
+  if n_algo_ok n then n_service_ok n && n_deploy_ok n && n_trial_ok n else n_algo_in_cfg n && n_trial_ok n.
 
 Definition run_ok (r : run) : bool := is_ok (r_impl r) && r_wellformed r.
 
